@@ -519,6 +519,20 @@ Theorem payload_merge_order_irrelevant : forall (ps ps' : list pprofile) (st st'
 Proof. exact ProfRewriteProofs.payload_merge_order_irrelevant. Qed.
 Print Assumptions payload_merge_order_irrelevant.
 
+(* First part of "sanitizeProfile makes every payload sane" (the hypothesis payloads_sane above, evaluated per payload by the
+   check) proved for EVERY payload, well formed or not: after the three renumbering passes the ids of functions, mappings
+   (the lazily appended empty mapping included) and locations are 1..n in order, and the first string is the empty one. *)
+From Qryn Require Import proofs.ProfSanitizeProofs.
+Theorem sanitize_ids_positional : forall p : pprofile,
+  positional f_id (p_funs (sanitize p)) 1 = true /\ positional m_id (p_maps (sanitize p)) 1 = true /\
+  positional l_id (p_locs (sanitize p)) 1 = true.
+Proof. exact ProfSanitizeProofs.sanitize_ids_positional. Qed.
+Print Assumptions sanitize_ids_positional.
+
+Theorem sanitize_first_string_empty : forall p : pprofile, nth 0 (p_strs (sanitize p)) (-1) = 0.
+Proof. exact ProfSanitizeProofs.sanitize_first_string_empty. Qed.
+Print Assumptions sanitize_first_string_empty.
+
 (* ---- the exact class of node-id collisions, acyclicity of stored trees, int64 overflow (proofs/ProfCycleProofs.v) *)
 From Qryn Require Import proofs.ProfCycleProofs.
 
